@@ -415,6 +415,29 @@ class ScriptedSet:
     def copy(self):
         return ScriptedSet(self)
 
+    def issubset(self, other):
+        return all(x in other for x in self._d)
+
+    def issuperset(self, other):
+        return all(x in self._d for x in other)
+
+    def isdisjoint(self, other):
+        return not any(x in other for x in self._d)
+
+    def intersection(self, *others):
+        return ScriptedSet(x for x in self._d if all(x in o for o in others))
+
+    def difference(self, *others):
+        return ScriptedSet(x for x in self._d if not any(x in o for o in others))
+
+    def pop(self):
+        k = next(iter(self._d))
+        del self._d[k]
+        return k
+
+    def clear(self):
+        self._d.clear()
+
     def __eq__(self, other):
         try:
             return set(self._d) == set(other)
@@ -426,7 +449,7 @@ class ScriptedSet:
 
 
 @contextlib.contextmanager
-def set_order_seam(perm_source, modules=("scenic.core.requirements", "scenic.core.dynamics.scenarios")):
+def set_order_seam(perm_source, modules=("scenic.core.requirements", "scenic.core.dynamics.scenarios", "scenic.core.scenarios")):
     import importlib
 
     mods = [importlib.import_module(m) for m in modules]
